@@ -242,8 +242,9 @@ package connect
 //@   tags C10, C07, C15
 //@   implements protocolHandler.SetTimeout
 //@   requires request != nil
-//@   ensures let h := hget(request.Header, "Grpc-Timeout") in gramT(h) && durT(h) <= 9223372036854775807 ==> err == nil && ctx == ctxWithTimeout(reqctx(request), durT(h))   // label: grammatical-honoured-exactly
-//@   ensures let h := hget(request.Header, "Grpc-Timeout") in (h == "" && len(hvals(request.Header, "Grpc-Timeout")) == 0) || (gramT(h) && durT(h) > 9223372036854775807) ==> err == nil && ctx == reqctx(request) && cancel == nil   // label: absent-or-unrepresentable-is-unbounded
+//@   ensures let h := hget(request.Header, "Grpc-Timeout") in gramT(h) && durT(h) <= 9223372036854775807 && len(hvals(request.Header, "Grpc-Timeout")) == 1 ==> err == nil && ctx == ctxWithTimeout(reqctx(request), durT(h))   // label: grammatical-honoured-exactly
+//@   ensures len(hvals(request.Header, "Grpc-Timeout")) > 1 ==> err != nil && codeOf(err) == 3 && coded(err)   // label: several-field-lines-are-no-timeout-in-the-grammar
+//@   ensures let h := hget(request.Header, "Grpc-Timeout") in (h == "" && len(hvals(request.Header, "Grpc-Timeout")) == 0) || (gramT(h) && durT(h) > 9223372036854775807 && len(hvals(request.Header, "Grpc-Timeout")) == 1) ==> err == nil && ctx == reqctx(request) && cancel == nil   // label: absent-or-unrepresentable-is-unbounded
 //@   ensures hget(request.Header, "Grpc-Timeout") == "" && len(hvals(request.Header, "Grpc-Timeout")) > 0 ==> err != nil && codeOf(err) == 3 && coded(err)   // label: present-but-empty-is-invalid-argument
 //@   ensures let h := hget(request.Header, "Grpc-Timeout") in |h| >= 1 && (!isUnit(h[|h|-1]) || !isNum10(h[:|h|-1]) || |h| > 9 || (isNum10(h[:|h|-1]) && val10(h[:|h|-1]) > 99999999)) ==> err != nil && codeOf(err) == 3 && coded(err)   // label: malformed-is-invalid-argument
 
@@ -253,7 +254,8 @@ package connect
 //@   requires request != nil
 //@   ensures hget(request.Header, "Connect-Timeout-Ms") == "" && len(hvals(request.Header, "Connect-Timeout-Ms")) == 0 ==> err == nil && ctx == reqctx(request) && cancel == nil    // label: absent-is-unbounded
 //@   ensures hget(request.Header, "Connect-Timeout-Ms") == "" && len(hvals(request.Header, "Connect-Timeout-Ms")) > 0 ==> err != nil && coded(err) && codeOf(err) == 3   // label: present-but-empty-is-invalid-argument
-//@   ensures let v := hget(request.Header, "Connect-Timeout-Ms") in isNum10(v) && |v| <= 10 ==> err == nil && ctx == ctxWithTimeout(reqctx(request), val10(v) * 1000000)   // label: grammatical-honoured-exactly
+//@   ensures let v := hget(request.Header, "Connect-Timeout-Ms") in isNum10(v) && |v| <= 10 && len(hvals(request.Header, "Connect-Timeout-Ms")) == 1 ==> err == nil && ctx == ctxWithTimeout(reqctx(request), val10(v) * 1000000)   // label: grammatical-honoured-exactly
+//@   ensures len(hvals(request.Header, "Connect-Timeout-Ms")) > 1 ==> err != nil && coded(err) && codeOf(err) == 3   // label: several-field-lines-are-no-timeout-in-the-grammar
 //@   ensures let v := hget(request.Header, "Connect-Timeout-Ms") in |v| > 10 || (v != "" && !isNum10(v)) ==> err != nil && coded(err) && codeOf(err) == 3   // label: malformed-is-invalid-argument
 
 // ---------------------------------------------------------------------------
@@ -1442,6 +1444,7 @@ package connect
 //@   assert@call(wrapHandlerConnWithCodedErrors#1): hdom(rwheader(responseWriter), "Content-Type") && hraw(rwheader(responseWriter), "Content-Type") == [hget(request.Header, "Content-Type")]   // label: content-type-echoes-the-request   // tags: C05
 //@   assert@call(wrapHandlerConnWithCodedErrors#1): typeis(arg0, "*connectStreamingHandlerConn") ==> (let c := cast(arg0, "*connectStreamingHandlerConn") in c.marshaler.envelopeWriter.compressMinBytes == h.protocolHandlerParams.CompressMinBytes && c.marshaler.envelopeWriter.writer == responseWriter && c.marshaler.envelopeWriter.bufferPool == h.protocolHandlerParams.BufferPool && c.unmarshaler.envelopeReader.readMaxBytes == h.protocolHandlerParams.ReadMaxBytes && c.unmarshaler.envelopeReader.reader == request.Body && c.unmarshaler.envelopeReader.bufferPool == h.protocolHandlerParams.BufferPool)   // label: streaming-conn-carries-the-handler's-limits-and-threshold   // tags: C01, C07, C08, C09
 //@   assert@call(wrapHandlerConnWithCodedErrors#1): typeis(arg0, "*connectStreamingHandlerConn") && cast(arg0, "*connectStreamingHandlerConn").marshaler.envelopeWriter.compressionPool != nil ==> hdom(rwheader(responseWriter), "Connect-Content-Encoding") && hraw(rwheader(responseWriter), "Connect-Content-Encoding") == [callres("negotiateCompression", 1, 1)] && callres("negotiateCompression", 1, 1) != "identity"   // label: compressed-flag-only-with-an-encoding-header   // tags: C05, C08
+//@   assert@call(wrapHandlerConnWithCodedErrors#1): hdom(rwheader(responseWriter), "Connect-Content-Encoding") ==> (old(hdom(rwheader(responseWriter), "Connect-Content-Encoding")) && hraw(rwheader(responseWriter), "Connect-Content-Encoding") == old(hraw(rwheader(responseWriter), "Connect-Content-Encoding"))) || hraw(rwheader(responseWriter), "Connect-Content-Encoding") != [""]   // label: the-response-encoding-header-is-never-written-with-an-empty-value   // tags: C05, C07, C08
 //@   assert@call(wrapHandlerConnWithCodedErrors#1): typeis(arg0, "*connectUnaryHandlerConn") ==> (let c := cast(arg0, "*connectUnaryHandlerConn") in c.marshaler.compressMinBytes == h.protocolHandlerParams.CompressMinBytes && c.unmarshaler.readMaxBytes == h.protocolHandlerParams.ReadMaxBytes && c.unmarshaler.reader == request.Body && c.marshaler.compressionName == callres("negotiateCompression", 1, 1))   // label: unary-conn-carries-the-handler's-limits-and-threshold   // tags: C01, C07, C08, C09
 
 //@ func (*grpcHandler).NewConn(g, responseWriter, request) (conn, ok)
@@ -1456,6 +1459,7 @@ package connect
 //@   assert@call(wrapHandlerConnWithCodedErrors#1): hdom(rwheader(responseWriter), "Content-Type") && hraw(rwheader(responseWriter), "Content-Type") == [hget(request.Header, "Content-Type")]   // label: content-type-echoes-the-request   // tags: C05
 //@   assert@call(wrapHandlerConnWithCodedErrors#1): let c := cast(arg0, "*grpcHandlerConn") in c.marshaler.envelopeWriter.compressMinBytes == g.protocolHandlerParams.CompressMinBytes && c.marshaler.envelopeWriter.writer == responseWriter && c.unmarshaler.envelopeReader.readMaxBytes == g.protocolHandlerParams.ReadMaxBytes && c.unmarshaler.envelopeReader.reader == request.Body && c.web == g.web && c.unmarshaler.web == g.web   // label: conn-carries-the-handler's-limits-and-threshold   // tags: C01, C07, C08, C09
 //@   assert@call(wrapHandlerConnWithCodedErrors#1): cast(arg0, "*grpcHandlerConn").marshaler.envelopeWriter.compressionPool != nil ==> hdom(rwheader(responseWriter), "Grpc-Encoding") && hraw(rwheader(responseWriter), "Grpc-Encoding") == [callres("negotiateCompression", 1, 1)] && callres("negotiateCompression", 1, 1) != "identity"   // label: compressed-flag-only-with-an-encoding-header   // tags: C05, C08
+//@   assert@call(wrapHandlerConnWithCodedErrors#1): hdom(rwheader(responseWriter), "Grpc-Encoding") ==> (old(hdom(rwheader(responseWriter), "Grpc-Encoding")) && hraw(rwheader(responseWriter), "Grpc-Encoding") == old(hraw(rwheader(responseWriter), "Grpc-Encoding"))) || hraw(rwheader(responseWriter), "Grpc-Encoding") != [""]   // label: the-response-encoding-header-is-never-written-with-an-empty-value   // tags: C05, C07, C08
 
 // ---------------------------------------------------------------------------
 // client-side request headers (C01/C08: encoding header; C10: timeout header)
@@ -1641,18 +1645,20 @@ package connect
 //@   ensures res != nil
 //@   ensures rest(d) == [] ==> res == wireTrailers(d)
 //@   doc: "http.Response.Trailer: complete only after the body has been read to io.EOF (net/http documentation)"
-//@ trusted func discard(reader) err
+//@ trusted func discard(reader) (res, err)
 //@   requires reader != nil
 //@   assigns rest(reader)
 //@   ensures |old(rest(reader))| <= 4194304 ==> rest(reader) == []
-//@   ensures |old(rest(reader))| > 4194304 ==> rest(reader) == old(rest(reader))[4194304:]
-//@   doc: "io.Copy(io.Discard, &io.LimitedReader{R: reader, N: discardLimit}): reads up to 4 MiB and throws them away; when exactly the limit was consumed, one more one-byte read lets a body that has ended report io.EOF (body: stdlib plumbing, trusted; the model identifies 'every byte consumed' with 'end of body seen', so the difference that probe makes - defect 38 - lies below its resolution)"
+//@   ensures |old(rest(reader))| <= 4194304 && termerr(reader) == io.EOF ==> res && err == nil
+//@   ensures |old(rest(reader))| > 4194304 ==> !res
+//@   doc: "io.Copy(io.Discard, &io.LimitedReader{R: reader, N: discardLimit}) and, when exactly the limit was consumed, one more one-byte read: reads up to 4 MiB (+1) and throws them away; reports whether the end of the reader was reached (body: stdlib plumbing, trusted; the model identifies 'every byte consumed' with 'end of body seen')"
 //@ func (*grpcClient).NewConn$2(u, call) res
 //@   tags C03, C04, C06
 //@   requires call != nil
 //@   assigns rest(call)
 //@   ensures res != nil
-//@   ensures |old(rest(call))| <= 4194304 ==> res == wireTrailers(call)   // label: http-trailers-are-read-after-draining-the-body
+//@   ensures |old(rest(call))| <= 4194304 && termerr(call) == io.EOF ==> res == wireTrailers(call)   // label: http-trailers-are-read-after-draining-the-body
+//@   ensures |old(rest(call))| > 4194304 ==> fresh(res)   // label: with-more-left-than-the-client-will-drain-the-trailers-are-out-of-reach-whatever-net/http-has-seen   // tags: C03
 
 // ---------------------------------------------------------------------------
 // C02: the error carriers of the Connect protocol (sender side)
@@ -1679,7 +1685,7 @@ package connect
 // JSON body that is the wire form of the error itself (a plain error is
 // wrapped as code unknown), and the error's metadata in the headers.
 //@ func (*connectUnaryHandlerConn).Close(hc, err) res
-//@   tags C02, C05
+//@   tags C02, C05, C08
 //@   requires hc != nil && hc.responseWriter != nil && hdrOf(hc.responseWriter) != nil && hc.request != nil && hc.request.Body != nil
 //@   requires hdrOf(hc.responseWriter) != hc.responseTrailer && (err != nil && coded(err) ==> asErr(err).meta != hdrOf(hc.responseWriter))
 //@   assigns everything
@@ -1689,6 +1695,7 @@ package connect
 //@   assert@call(json.Marshal#1): !coded(err) ==> boxed(arg0) != nil && fresh(boxed(arg0)) && cast(boxed(arg0), "*Error").code == 2 && cast(boxed(arg0), "*Error").err == err   // label: plain-error-is-sent-as-unknown-with-its-text
 //@   assert@call(http.ResponseWriter.Write#1): seq(arg1) == seq(callres("json.Marshal", 1, 0))   // label: body-is-the-marshalled-error
 //@   assert@call(http.ResponseWriter.Write#1): called("http.ResponseWriter.WriteHeader", 1)   // label: status-precedes-the-body
+//@   assert@call(http.ResponseWriter.Write#1): !hdom(hdrOf(hc.responseWriter), "Content-Encoding")   // label: the-plain-json-error-body-is-not-labelled-with-an-encoding-whatever-the-error's-metadata-holds   // tags: C08, C05
 
 // Streaming: the end-of-stream envelope (flag 0x02) carries the wire form of
 // the error itself (a plain error as code unknown) and the trailers with the
